@@ -218,3 +218,85 @@ DRV_OP(pv_reopen) {
         return std::string();
     });
 }
+
+// ---- files of an older format (< 1.1.1): one compound record per value ------------------------------------------------------
+// The library still reads them (read-only).  No API call writes such a file: it is prepared with the HDF5 C API — a file made by
+// the library gets the version 1.1.0 and a property data set of compound records (value, uncertainty, reference, filename,
+// encoder, checksum), the layout PropertyHDF5.cpp reads in its "old style" branch.
+#include <hdf5.h>
+namespace {
+template<typename T> struct OldRec { T value; double uncertainty; const char *reference; const char *filename; const char *encoder; const char *checksum; };
+hid_t vlenStr() { hid_t t = H5Tcopy(H5T_C_S1); H5Tset_size(t, H5T_VARIABLE); H5Tset_cset(t, H5T_CSET_UTF8); return t; }
+void strAttr(hid_t loc, const char *name, const std::string &value) {
+    hid_t t = vlenStr(); hid_t sp = H5Screate(H5S_SCALAR);
+    hid_t at = H5Acreate2(loc, name, t, sp, H5P_DEFAULT, H5P_DEFAULT);
+    const char *p = value.c_str();
+    if (at < 0 || H5Awrite(at, t, &p) < 0) throw ProtoError("pv_old: attribute");
+    H5Aclose(at); H5Sclose(sp); H5Tclose(t);
+}
+template<typename T> void writeOld(hid_t group, const std::string &name, hid_t valueType, const std::vector<T> &vals, double unc) {
+    typedef OldRec<T> R;
+    hid_t st = vlenStr();
+    hid_t ct = H5Tcreate(H5T_COMPOUND, sizeof(R));
+    H5Tinsert(ct, "value", HOFFSET(R, value), valueType); H5Tinsert(ct, "uncertainty", HOFFSET(R, uncertainty), H5T_NATIVE_DOUBLE);
+    H5Tinsert(ct, "reference", HOFFSET(R, reference), st); H5Tinsert(ct, "filename", HOFFSET(R, filename), st);
+    H5Tinsert(ct, "encoder", HOFFSET(R, encoder), st); H5Tinsert(ct, "checksum", HOFFSET(R, checksum), st);
+    std::vector<R> recs(vals.size());
+    for (size_t i = 0; i < vals.size(); i++) { std::memset(&recs[i], 0, sizeof(R)); recs[i].value = vals[i]; recs[i].uncertainty = unc;
+        recs[i].reference = ""; recs[i].filename = ""; recs[i].encoder = ""; recs[i].checksum = ""; }
+    hsize_t dims[1] = {vals.size()}, maxdims[1] = {H5S_UNLIMITED}, chunk[1] = {vals.size() > 0 ? vals.size() : 1};
+    hid_t sp = H5Screate_simple(1, dims, maxdims); hid_t dcpl = H5Pcreate(H5P_DATASET_CREATE); H5Pset_chunk(dcpl, 1, chunk);
+    hid_t ds = H5Dcreate2(group, name.c_str(), ct, sp, H5P_DEFAULT, dcpl, H5P_DEFAULT);
+    if (ds < 0 || (!vals.empty() && H5Dwrite(ds, ct, H5S_ALL, H5S_ALL, H5P_DEFAULT, recs.data()) < 0)) throw ProtoError("pv_old: data set");
+    strAttr(ds, "name", name); strAttr(ds, "entity_id", "0b5f3c1e-7a2d-4c3b-9e11-0000000000a1");
+    strAttr(ds, "created_at", "20200101T000000"); strAttr(ds, "updated_at", "20200101T000000");
+    H5Dclose(ds); H5Pclose(dcpl); H5Sclose(sp); H5Tclose(ct); H5Tclose(st);
+}
+}
+// pv_old <Type> [Type:value,…] <uncertainty> => ok <file version> <dtype> <valueCount> [Type:value,…] <uncertainty|~>
+// a property of an old-format file holding these values, read through the public API from a ReadOnly session
+DRV_OP(pv_old) {
+    if (a.size() != 4) throw ProtoError("pv_old arity");
+    return guarded([&]() {
+        resetAll();
+        std::string path = scratch("old.nix");
+        { nix::File f = nix::File::open(path, nix::FileMode::Overwrite); nix::Section s = f.createSection("s", "t");
+          s.createProperty("dummy", nix::Variant(int32_t(1))); f.close(); }
+        std::vector<nix::Variant> vs = variants(a[2]);
+        double unc = tokF64(a[3]);
+        {
+            hid_t fid = H5Fopen(path.c_str(), H5F_ACC_RDWR, H5P_DEFAULT);
+            if (fid < 0) throw ProtoError("pv_old: open");
+            int version[3] = {1, 1, 0};
+            hid_t at = H5Aopen(fid, "version", H5P_DEFAULT);
+            if (at < 0 || H5Awrite(at, H5T_NATIVE_INT, version) < 0) throw ProtoError("pv_old: version");
+            H5Aclose(at);
+            hid_t g = H5Gopen2(fid, "/metadata/s/properties", H5P_DEFAULT);
+            if (g < 0) throw ProtoError("pv_old: group");
+            H5Ldelete(g, "dummy", H5P_DEFAULT);
+            const std::string &t = a[1];
+            if (t == "Int32") { std::vector<int32_t> v; for (auto &x : vs) v.push_back(x.get<int32_t>()); writeOld<int32_t>(g, "p", H5T_NATIVE_INT32, v, unc); }
+            else if (t == "UInt32") { std::vector<uint32_t> v; for (auto &x : vs) v.push_back(x.get<uint32_t>()); writeOld<uint32_t>(g, "p", H5T_NATIVE_UINT32, v, unc); }
+            else if (t == "Int64") { std::vector<int64_t> v; for (auto &x : vs) v.push_back(x.get<int64_t>()); writeOld<int64_t>(g, "p", H5T_NATIVE_INT64, v, unc); }
+            else if (t == "UInt64") { std::vector<uint64_t> v; for (auto &x : vs) v.push_back(x.get<uint64_t>()); writeOld<uint64_t>(g, "p", H5T_NATIVE_UINT64, v, unc); }
+            else if (t == "Double") { std::vector<double> v; for (auto &x : vs) v.push_back(x.get<double>()); writeOld<double>(g, "p", H5T_NATIVE_DOUBLE, v, unc); }
+            else if (t == "String") { std::vector<std::string> keep; for (auto &x : vs) keep.push_back(x.get<std::string>());
+                std::vector<const char *> v; for (auto &x : keep) v.push_back(x.c_str());
+                hid_t stt = vlenStr(); writeOld<const char *>(g, "p", stt, v, unc); H5Tclose(stt); }
+            else if (t == "Bool") { hid_t bt = H5Tenum_create(H5T_NATIVE_INT8); int8_t zero = 0, one = 1;
+                H5Tenum_insert(bt, "FALSE", &zero); H5Tenum_insert(bt, "TRUE", &one);
+                std::vector<int8_t> v; for (auto &x : vs) v.push_back(x.get<bool>() ? 1 : 0); writeOld<int8_t>(g, "p", bt, v, unc); H5Tclose(bt); }
+            else throw ProtoError("pv_old type " + t);
+            H5Gclose(g); H5Fclose(fid);
+        }
+        nix::File f = nix::File::open(path, nix::FileMode::ReadOnly);
+        std::vector<std::string> ver; for (int v : f.version()) ver.push_back(std::to_string(v));
+        nix::Property p = f.getSection("s").getProperty("p");
+        std::vector<std::string> l;
+        for (auto &v : p.values()) l.push_back(variantTok(v));
+        auto u = p.uncertainty();
+        std::string r = listTok(ver) + " " + nix::data_type_to_string(p.dataType()) + " " + std::to_string(p.valueCount()) + " " + listTok(l) + " " + (u ? f64Tok(*u) : std::string("~"));
+        f.close();
+        return r;
+    });
+}
